@@ -48,6 +48,7 @@ WITNESSES = [
     {"N": 169, "fs": 1.0, "olap": 0.1, "bmin": 1.0, "Lmin": 1, "Jdes": 100, "Kdes": 1},       # D6(ii): K vs navg tie
     {"N": 1718, "fs": 1000.0, "olap": 0.3, "bmin": 1.5, "Lmin": 1718, "Jdes": 2, "Kdes": 1},  # D8: ZeroDivisionError
     {"N": 92, "fs": 1.0, "olap": 0.3, "bmin": 3.7, "Lmin": 2, "Jdes": 10, "Kdes": 100},       # D8: bmin branch
+    {"N": 20000, "fs": 2.0, "olap": 0.9999999999999999, "bmin": 1.0, "Lmin": 1, "Jdes": 50, "Kdes": 10},  # D14: olap = 1 - 2^-53 (known finding)
 ]
 
 
@@ -57,6 +58,9 @@ def correspondence(ctx) -> C.Part:
     # region SchedGlue: the generated schedulers (unpacking, lpsd forwarding, statements after the walk, output dictionary) vs the real ones
     S.correspondence_glue(ctx, P, cfgs)
     return P
+
+
+NEAR_ONE = (0.999, 0.9995, 0.9996, 0.9999, 0.99999, 1 - 1e-7, 1 - 2.0 ** -30)
 
 
 def check_cfg(P: C.Part, cfg, scheds=S.SCHEDS, through_analyzer: bool = True) -> None:
@@ -90,6 +94,14 @@ def oracle(ctx, intensive: bool = False, hints=()) -> C.Part:
     for h in hints:
         if isinstance(h, dict) and "cfg" in h:
             check_cfg(P, h["cfg"])
+    # overlaps at the upper end of the admissible range [0, 1): the analyzer's own handling of `olap` (range check, window defaults, storage as
+    # final_olap) must hand every scheduler the value the user gave, and the plan must still be built
+    for olap in NEAR_ONE:
+        for N, (bmin, Lmin, Jdes, Kdes) in ((64, (1.0, 1, 50, 10)), (600, (2.5, 4, 10, 2)), (4096, (1.0, 1, 50, 10)), (4096, (1.0, 4096, 3, 1)), (20000, (1.0, 1, 60, 100))):
+            if ctx.time_left() < 15 or len(P.violations) >= 8:
+                break
+            P.hit("olap-near-one")
+            check_cfg(P, {"N": N, "fs": 2.0, "olap": olap, "bmin": bmin, "Lmin": Lmin, "Jdes": Jdes, "Kdes": Kdes})
     n = ctx.scale(150, 2500) * (4 if intensive else 1)
     for i in range(n):
         if ctx.time_left() < 15 or len(P.violations) >= 8:
